@@ -337,5 +337,7 @@ def shapes(seq: Any, cap: int = 600) -> List[str]:
                 seen.append(o)
         results = [r + o for r in results for o in seen]
         if len(results) > cap:
-            results = results[:cap]
+            # keep a spread over all prefixes rather than the first `cap` products
+            step = len(results) / cap
+            results = [results[int(i * step)] for i in range(cap)]
     return results
